@@ -487,7 +487,7 @@ func init() {
 	}
 	random := &fw.Phase{
 		Name: "random-long",
-		N:    fw.Fixed(20000, 400000),
+		N:    fw.Fixed(100000, 400000),
 		Run: func(env *fw.Env, idx int) fw.Result {
 			u := c11Get(env.Tier)
 			rnd := env.Rand(idx)
